@@ -1,6 +1,32 @@
-import Rtcm.Model.Bits
+import Rtcm.Proofs.Bits
 /-!
-# C07  Bit-field packing is exact (placeholder: theorems under construction)
+# C07  Bit-field packing is exact
+
+"Writing a w-bit integer field at any bit offset of a message body sets exactly those bits, most
+significant bit first, in two's complement for signed fields and sign-plus-magnitude for the
+fields the standard defines so, and leaves every other bit unchanged; reading the same position
+returns the written value for every representable value. A read or write that would extend past
+the end of the buffer reports a buffer-overflow error and changes neither the buffer nor the
+cursor."
+
+Subject: `Rtcm.Bits.put` / `Rtcm.Bits.parse` (Model/Bits.lean), the code-shaped model of
+`Assembler::put`, `Parser::parse` and the `BitValue` implementors.
+
+Standing hypotheses (all theorems below except the overflow pair):
+* `8 ≤ it.w ≤ 64`   — carrier width (the crate instantiates 8, 16, 32, 64);
+* `1 ≤ len ≤ it.w`  — field width;
+* every byte of `data` is `< 256`; `off + len ≤ 8 * data.length` (the field fits);
+* `v < 2 ^ it.w`    — `v` is a carrier bit pattern.
+Every theorem holds for every `cfg : Cfg`, i.e. with and without `overflow-checks`; a result
+`.ok _` in particular means that no `usize` subtraction underflows and every shift amount is
+below the carrier width.
+
+Specification vocabulary (Model/Bits.lean, bottom): `bitAt data g` is bit `7 - g % 8` of byte
+`g / 8` (MSB first); `wireValue`/`wireBit` are the `len` wire bits of a pattern (two's complement
+for U/I, sign bit + magnitude for SM, never `-0`); `fieldValue data off len` is the number formed
+by bits `off .. off+len`; `readValue` is the pattern decoded from such a number;
+`Representable it len v` (Proofs/Bits.lean): U `v < 2^len`, I `-2^(len-1) ≤ toInt v < 2^(len-1)`,
+SM `|toInt v| < 2^(len-1)`.
 -/
 namespace Rtcm.C07
 open Rtcm.Bits
@@ -14,5 +40,191 @@ theorem put_overflow_error (cfg : Cfg) (it : IT) (data : List Nat) (off v len : 
 theorem parse_overflow_error (cfg : Cfg) (it : IT) (data : List Nat) (off len : Nat)
     (h : data.length * 8 < off + len) : parse cfg it data off len = .err .bufferOverflow := by
   simp [parse, h]
+
+/-- everything about a successful `put` in one statement (the theorems below are its parts) -/
+theorem put_spec (cfg : Cfg) (it : IT) (data : List Nat) (off v len : Nat)
+    (hw8 : 8 ≤ it.w) (hw64 : it.w ≤ 64) (h1 : 1 ≤ len) (hlw : len ≤ it.w)
+    (hdata : ∀ d ∈ data, d < 256) (hfit : off + len ≤ 8 * data.length) (hv : v < 2 ^ it.w) :
+    ∃ data', put cfg it data off v len = .ok (data', off + len) ∧
+      data'.length = data.length ∧ (∀ d ∈ data', d < 256) ∧
+      ∀ g, bitAt data' g =
+        if off ≤ g ∧ g < off + len then wireBit it len v (g - off) else bitAt data g := by
+  obtain ⟨value, hsf, hvalue, hwire⟩ := signFixRev_spec cfg it h1 hlw hv
+  obtain ⟨data', hput, hlen, hbits⟩ :=
+    put_of_signFixRev cfg it hw8 hw64 h1 hlw hdata hfit hsf hvalue
+  have hget : ∀ j, data.getD j 0 < 256 := by
+    intro j
+    rw [List.getD_eq_getElem?_getD]
+    cases h : data[j]? with
+    | none => simp
+    | some d => simpa using hdata d (List.mem_of_getElem? h)
+  refine ⟨data', hput, hlen, ?_, ?_⟩
+  · intro d hd
+    obtain ⟨j, hj, rfl⟩ := List.getElem_of_mem hd
+    have e : data'[j] = data'.getD j 0 := by simp [List.getD_eq_getElem?_getD, hj]
+    rw [e]
+    apply lt_256_of_testBit
+    intro t ht
+    rw [hbits, specBit, if_neg (by omega)]
+    exact testBit_false_of_lt_256 (hget j) ht
+  · intro g
+    unfold bitAt
+    rw [hbits, specBit]
+    have e : 8 * (g / 8) + 7 - (7 - g % 8) = g := by omega
+    rw [e]
+    by_cases hg : off ≤ g ∧ g < off + len
+    · have h7 : 7 - g % 8 < 8 := by omega
+      rw [if_pos ⟨h7, hg⟩, if_pos hg, wireBit, ← hwire, Nat.testBit_mod_two_pow]
+      have e2 : len - 1 - (g - off) = off + len - 1 - g := by omega
+      have e3 : off + len - 1 - g < len := by omega
+      simp [e2, e3]
+    · rw [if_neg (fun h => hg h.2), if_neg hg]
+
+/-- 1. `put` succeeds (no panic in either build profile), advances the cursor by `len`, keeps the
+buffer length and keeps every byte a byte. -/
+theorem put_no_panic (cfg : Cfg) (it : IT) (data : List Nat) (off v len : Nat)
+    (hw8 : 8 ≤ it.w) (hw64 : it.w ≤ 64) (h1 : 1 ≤ len) (hlw : len ≤ it.w)
+    (hdata : ∀ d ∈ data, d < 256) (hfit : off + len ≤ 8 * data.length) (hv : v < 2 ^ it.w) :
+    ∃ data', put cfg it data off v len = .ok (data', off + len) ∧
+      data'.length = data.length ∧ ∀ d ∈ data', d < 256 := by
+  obtain ⟨data', h, hl, hb, _⟩ := put_spec cfg it data off v len hw8 hw64 h1 hlw hdata hfit hv
+  exact ⟨data', h, hl, hb⟩
+
+/-- 2. the buffer after `put`: bits `off .. off+len` are the wire bits of `v`, most significant
+first; every other bit is unchanged. -/
+theorem put_bits (cfg : Cfg) (it : IT) (data : List Nat) (off v len : Nat)
+    (hw8 : 8 ≤ it.w) (hw64 : it.w ≤ 64) (h1 : 1 ≤ len) (hlw : len ≤ it.w)
+    (hdata : ∀ d ∈ data, d < 256) (hfit : off + len ≤ 8 * data.length) (hv : v < 2 ^ it.w)
+    (data' : List Nat) (c : Nat) (hput : put cfg it data off v len = .ok (data', c)) (g : Nat) :
+    bitAt data' g =
+      if off ≤ g ∧ g < off + len then wireBit it len v (g - off) else bitAt data g := by
+  obtain ⟨data'', h, _, _, hb⟩ := put_spec cfg it data off v len hw8 hw64 h1 hlw hdata hfit hv
+  rw [hput] at h
+  cases h
+  exact hb g
+
+/-- 3. `parse` succeeds (no panic in either build profile), advances the cursor by `len` and
+returns the pattern decoded from the field's bits. -/
+theorem parse_bits (cfg : Cfg) (it : IT) (data : List Nat) (off len : Nat)
+    (hw8 : 8 ≤ it.w) (hw64 : it.w ≤ 64) (h1 : 1 ≤ len) (hlw : len ≤ it.w)
+    (hfit : off + len ≤ 8 * data.length) :
+    parse cfg it data off len = .ok (readValue it len (fieldValue data off len), off + len) := by
+  rw [parse_eq_signFix cfg it hw8 hw64 h1 hlw hfit,
+    signFix_eq cfg it h1 hlw (fieldValue_lt data off len)]
+  rfl
+
+theorem parse_no_panic (cfg : Cfg) (it : IT) (data : List Nat) (off len : Nat)
+    (hw8 : 8 ≤ it.w) (hw64 : it.w ≤ 64) (h1 : 1 ≤ len) (hlw : len ≤ it.w)
+    (hfit : off + len ≤ 8 * data.length) :
+    ∃ x, parse cfg it data off len = .ok (x, off + len) :=
+  ⟨_, parse_bits cfg it data off len hw8 hw64 h1 hlw hfit⟩
+
+/-- 4. round trip: reading the position just written returns the written value, for every
+representable value. -/
+theorem parse_put (cfg : Cfg) (it : IT) (data : List Nat) (off v len : Nat)
+    (hw8 : 8 ≤ it.w) (hw64 : it.w ≤ 64) (h1 : 1 ≤ len) (hlw : len ≤ it.w)
+    (hdata : ∀ d ∈ data, d < 256) (hfit : off + len ≤ 8 * data.length) (hv : v < 2 ^ it.w)
+    (hrep : Representable it len v)
+    (data' : List Nat) (c : Nat) (hput : put cfg it data off v len = .ok (data', c)) :
+    parse cfg it data' off len = .ok (v, off + len) := by
+  obtain ⟨data'', h, hl, _, hb⟩ := put_spec cfg it data off v len hw8 hw64 h1 hlw hdata hfit hv
+  rw [hput] at h
+  cases h
+  rw [parse_bits cfg it data' off len hw8 hw64 h1 hlw (by omega)]
+  have hfv : fieldValue data' off len = wireValue it len v := by
+    apply Nat.eq_of_testBit_eq
+    intro m
+    rw [testBit_fieldValue, hb]
+    by_cases hm : m < len
+    · have hg : off ≤ off + len - 1 - m ∧ off + len - 1 - m < off + len := by omega
+      have e : len - 1 - (off + len - 1 - m - off) = m := by omega
+      simp only [hm, decide_true, Bool.true_and, if_pos hg, wireBit, e]
+    · have : wireValue it len v < 2 ^ m :=
+        Nat.lt_of_lt_of_le (wireValue_lt it h1 v) (Nat.pow_le_pow_right (by decide) (by omega))
+      simp [hm, Nat.testBit_lt_two_pow this]
+  rw [hfv, readValue_wireValue it h1 hlw hv hrep]
+
+/-! ### The three kinds spelled out -/
+
+theorem parse_put_unsigned (cfg : Cfg) (w : Nat) (data : List Nat) (off v len : Nat)
+    (hw8 : 8 ≤ w) (hw64 : w ≤ 64) (h1 : 1 ≤ len) (hlw : len ≤ w)
+    (hdata : ∀ d ∈ data, d < 256) (hfit : off + len ≤ 8 * data.length)
+    (hrep : v < 2 ^ len)
+    (data' : List Nat) (c : Nat) (hput : put cfg ⟨.u, w⟩ data off v len = .ok (data', c)) :
+    parse cfg ⟨.u, w⟩ data' off len = .ok (v, off + len) :=
+  parse_put cfg ⟨.u, w⟩ data off v len hw8 hw64 h1 hlw hdata hfit
+    (Nat.lt_of_lt_of_le hrep (Nat.pow_le_pow_right (by decide) hlw)) hrep data' c hput
+
+theorem parse_put_signed (cfg : Cfg) (w : Nat) (data : List Nat) (off v len : Nat)
+    (hw8 : 8 ≤ w) (hw64 : w ≤ 64) (h1 : 1 ≤ len) (hlw : len ≤ w)
+    (hdata : ∀ d ∈ data, d < 256) (hfit : off + len ≤ 8 * data.length) (hv : v < 2 ^ w)
+    (hlo : -((2 ^ (len - 1) : Nat) : Int) ≤ toInt w v)
+    (hhi : toInt w v < ((2 ^ (len - 1) : Nat) : Int))
+    (data' : List Nat) (c : Nat) (hput : put cfg ⟨.i, w⟩ data off v len = .ok (data', c)) :
+    parse cfg ⟨.i, w⟩ data' off len = .ok (v, off + len) :=
+  parse_put cfg ⟨.i, w⟩ data off v len hw8 hw64 h1 hlw hdata hfit hv ⟨hlo, hhi⟩ data' c hput
+
+theorem parse_put_sign_magnitude (cfg : Cfg) (w : Nat) (data : List Nat) (off v len : Nat)
+    (hw8 : 8 ≤ w) (hw64 : w ≤ 64) (h1 : 1 ≤ len) (hlw : len ≤ w)
+    (hdata : ∀ d ∈ data, d < 256) (hfit : off + len ≤ 8 * data.length) (hv : v < 2 ^ w)
+    (hlo : -((2 ^ (len - 1) : Nat) : Int) < toInt w v)
+    (hhi : toInt w v < ((2 ^ (len - 1) : Nat) : Int))
+    (data' : List Nat) (c : Nat) (hput : put cfg ⟨.sm, w⟩ data off v len = .ok (data', c)) :
+    parse cfg ⟨.sm, w⟩ data' off len = .ok (v, off + len) :=
+  parse_put cfg ⟨.sm, w⟩ data off v len hw8 hw64 h1 hlw hdata hfit hv ⟨hlo, hhi⟩ data' c hput
+
+/-! ### What the wire bits mean -/
+
+/-- signed (`I`) fields are written in two's complement: the `len` wire bits are the signed
+reading of `v` modulo `2^len` -/
+theorem wire_twos_complement (w len v : Nat) (hlw : len ≤ w) :
+    ((wireValue ⟨.i, w⟩ len v : Nat) : Int) = toInt w v % ((2 ^ len : Nat) : Int) :=
+  wireValue_i_eq w hlw
+
+/-- sign-magnitude (`SM`) fields: a non-negative value is written as itself (sign bit 0), a
+negative one as sign bit `2^(len-1)` plus its magnitude -/
+theorem wire_sign_magnitude (w len v : Nat) (h1 : 1 ≤ len) (hlw : len ≤ w) (hv : v < 2 ^ w)
+    (hr : Representable ⟨.sm, w⟩ len v) :
+    ((wireValue ⟨.sm, w⟩ len v : Nat) : Int) =
+      if toInt w v < 0 then ((2 ^ (len - 1) : Nat) : Int) + -(toInt w v) else toInt w v :=
+  wireValue_sm_eq w h1 hlw hv hr
+
+/-! ### The crate's unit-test vectors (`test_put`, `test_parse`), both build profiles -/
+
+-- test_put 7: U16 27245, 16 bits at offset 9
+example (cfg : Cfg) : put cfg ⟨.u, 16⟩ [0, 0, 0, 0] 9 27245 16 = .ok ([0, 53, 54, 128], 25) := by rfl
+example (cfg : Cfg) : parse cfg ⟨.u, 16⟩ [0, 53, 54, 128] 9 16 = .ok (27245, 25) := by rfl
+-- test_put: SM16 -1820 (pattern 63716), 12 bits at offset 12
+example (cfg : Cfg) :
+    put cfg ⟨.sm, 16⟩ [0xc3, 0x9a, 0xe3, 0xaa, 0xf0, 0xcc] 12 63716 12
+      = .ok ([0xc3, 0x9f, 0x1c, 0xaa, 0xf0, 0xcc], 24) := by rfl
+example (cfg : Cfg) :
+    parse cfg ⟨.sm, 16⟩ [0xc3, 0x9f, 0x1c, 0xaa, 0xf0, 0xcc] 12 12 = .ok (63716, 24) := by rfl
+example : toInt 16 63716 = -1820 := by decide
+-- test_put: I8 -12 (pattern 244), 5 bits at offset 18
+example (cfg : Cfg) :
+    put cfg ⟨.i, 8⟩ [0xc3, 0x9a, 0xe3, 0xaa, 0xf0, 0xcc] 18 244 5
+      = .ok ([0xc3, 0x9a, 0xe9, 0xaa, 0xf0, 0xcc], 23) := by rfl
+example (cfg : Cfg) :
+    parse cfg ⟨.i, 8⟩ [0xc3, 0x9a, 0xe9, 0xaa, 0xf0, 0xcc] 18 5 = .ok (244, 23) := by rfl
+-- test_parse 1, 6, 7, 8, 9
+example (cfg : Cfg) :
+    parse cfg ⟨.u, 16⟩ [0xc3, 0x9a, 0xe3, 0xaa, 0xf0, 0xcc, 0xfe, 0xc3] 15 10
+      = .ok (0b0111000111, 25) := by rfl
+example (cfg : Cfg) :
+    parse cfg ⟨.u, 32⟩ [0xc3, 0x9a, 0xe3, 0xaa, 0xf0, 0xcc, 0xfe, 0xc3] 4 32
+      = .ok (0b00111001101011100011101010101111, 36) := by rfl
+example (cfg : Cfg) :
+    parse cfg ⟨.i, 8⟩ [0xc3, 0x9a, 0xe3, 0xaa, 0xf0, 0xcc, 0xfe, 0xc3] 18 5
+      = .ok (0b11110001, 23) := by rfl
+example (cfg : Cfg) :
+    parse cfg ⟨.i, 8⟩ [0xc3, 0x9a, 0xe3, 0xaa, 0xf0, 0xcc, 0xfe, 0xc3] 54 8
+      = .ok (0b10110000, 62) := by rfl
+example (cfg : Cfg) :
+    parse cfg ⟨.sm, 16⟩ [0xc3, 0x9a, 0xe3, 0xaa, 0xf0, 0xcc, 0xfe, 0xc3] 12 12
+      = .ok (ofInt 16 (-0b1011100011), 24) := by rfl
+-- a field that does not fit: error, no new state
+example (cfg : Cfg) : put cfg ⟨.u, 16⟩ [0, 0, 0, 0] 17 1 16 = .err .bufferOverflow := by rfl
+example (cfg : Cfg) : parse cfg ⟨.u, 16⟩ [0, 0, 0, 0] 17 16 = .err .bufferOverflow := by rfl
 
 end Rtcm.C07
